@@ -187,6 +187,7 @@ func (vc *VC) comp(st *bstate, name, sort string) string {
 		panic(fmt.Sprintf("component %s with two sorts %s / %s", name, old, sort))
 	}
 	vc.comps[name] = sort
+	vc.sr.ensureSorts(sort)
 	t := vc.declare(fmt.Sprintf("%s@e%d", name, st.epoch), sort)
 	st.heap[name] = t
 	return t
@@ -194,6 +195,7 @@ func (vc *VC) comp(st *bstate, name, sort string) string {
 
 func (vc *VC) setComp(st *bstate, name, sort, term string) {
 	vc.comps[name] = sort
+	vc.sr.ensureSorts(sort)
 	st.heap[name] = vc.define(name, sort, term)
 }
 
